@@ -128,6 +128,9 @@ func (d *parserDom) argsFor(fn *ssa.Function, left AV, prec int64, flag bool) []
 
 func (d *parserDom) inferRoles() *roles {
 	if d.p.memoRoles != nil {
+		for fn := range d.p.memoRoles.byFn {
+			delete(d.wrapper, fn) // a function that plays a role is no wrapper (see below)
+		}
 		return d.p.memoRoles
 	}
 	rl := &roles{byFn: map[*ssa.Function]string{}}
@@ -146,9 +149,23 @@ func (d *parserDom) inferRoles() *roles {
 		rl.byFn[fn] = role
 	}
 	rl.byFn[d.exprFn] = "E"
+	var wasWrapper []*ssa.Function
+	defer func() {
+		for _, m := range wasWrapper {
+			if rl.byFn[m] == "" {
+				d.wrapper[m] = true
+			}
+		}
+	}()
 	for _, m := range members {
-		if m == d.exprFn || d.wrapper[m] {
+		if m == d.exprFn {
 			continue
+		}
+		if d.wrapper[m] {
+			// a function without token tests of its own may still be a grammar function whose tests live in a helper
+			// (a cursor's expect): it is judged by what it does, like the others; if it plays a role it is no wrapper
+			delete(d.wrapper, m)
+			wasWrapper = append(wasWrapper, m)
 		}
 		sig := m.Signature
 		// by signature
